@@ -4,16 +4,12 @@
 From Remoc Require Import Lib.Base Robs.SeqCommon Robs.VecDeque Robs.VecDequeProofs.
 From Remoc Require Gen.Api Gen.Variants.
 
-(** FULL STATEMENT (false on the pinned tree, see [C13_VecDeque_known_class_refuted]): the theorem below
-    without the hypothesis [~ known_class md ck]. *)
-
 (** For every initial content, every sequence [ops] of mutator calls that does not panic, every
     subscription point [k] and both subscription modes: the events the subscription delivers are the
     initial-value events for the state after [k] calls followed by the events of [ops[k..]];
     provided [max_size] is not exceeded,
     (a) the mirror task fed with them ends without error holding exactly the final contents, with
-        [complete] set and [done] equal to the deque's done flag -- outside the known class
-        (incremental subscription taken after [done] on a non-empty deque);
+        [complete] set and [done] equal to the deque's done flag;
     (b) applying the same events by hand, starting from [take_initial()], gives the same, always. *)
 Theorem C13_VecDeque_mirror_equals_collection : forall init ops k cf e,
   run_ops (start init) ops = Ok (cf, e) ->
@@ -22,9 +18,8 @@ Theorem C13_VecDeque_mirror_equals_collection : forall init ops k cf e,
     run_ops ck (skipn k ops) = Ok (cf, e2) /\ e = e1 ++ e2 /\
     forall md mx,
       run_bounded mx ck (skipn k ops) ->
-      (~ known_class md ck ->
-       mirror_task (sub_mirror md ck mx) (sub_stream md ck e2) =
-         HOk {| mv := items cf; mcomplete := true; mdone := cdone cf; mmax := mx |}) /\
+      mirror_task (sub_mirror md ck mx) (sub_stream md ck e2) =
+        HOk {| mv := items cf; mcomplete := true; mdone := cdone cf; mmax := mx |} /\
       fold_events (hand_start md ck mx) (sub_stream md ck e2) =
         HOk {| mv := items cf; mcomplete := true; mdone := cdone cf; mmax := mx |}.
 Proof. exact mirror_equals_collection. Qed.
@@ -44,17 +39,14 @@ Theorem C13_VecDeque_done_iff_called : forall init ops cf e,
   run_ops (start init) ops = Ok (cf, e) -> (cdone cf = true <-> In MarkDone ops).
 Proof. exact done_iff_called. Qed.
 
-(** The known class is a real divergence of the pinned tree's mirror task: deque [7; 8], [done()],
-    then [subscribe_incremental().mirror()] holds [7] only, done, never complete. *)
-Theorem C13_VecDeque_known_class_refuted :
-  exists init ops k mx ck e1 e2 cf,
-    run_ops (start init) (firstn k ops) = Ok (ck, e1) /\
-    run_ops ck (skipn k ops) = Ok (cf, e2) /\ run_bounded mx ck (skipn k ops) /\
-    known_class Incremental ck /\
-    mirror_task (sub_mirror Incremental ck mx) (sub_stream Incremental ck e2) =
-      HOk {| mv := [7]; mcomplete := false; mdone := true; mmax := mx |} /\
-    items cf = [7; 8].
-Proof. exact known_class_diverges. Qed.
+(** Regression example (former finding F11, repaired in /repo): deque [7; 8], [done()], then
+    [subscribe_incremental().mirror()] -- the mirror holds [7; 8], complete and done. *)
+Example C13_VecDeque_incremental_after_done :
+  let ck := {| items := [7; 8]; cdone := true |} in
+  run_ops (start [7; 8]) [MarkDone] = Ok (ck, [EDone]) /\
+  mirror_task (sub_mirror Incremental ck 10) (sub_stream Incremental ck []) =
+    HOk {| mv := [7; 8]; mcomplete := true; mdone := true; mmax := 10 |}.
+Proof. vm_compute. auto. Qed.
 
 (** Tie to the source: the modelled mutators are the public [&mut self] methods of [ObservableVecDeque]
     found in the source on this run (minus [set_error_handler]/[into_inner]); [RefMut]/[IterMut] have no
@@ -79,20 +71,19 @@ Example C13_VecDeque_nonvacuous :
               Resize 5 2; Truncate 9; Clear; Clear; PopFront; Extend [1; 2]; MarkDone; MarkDone] in
   exists ck e1 cf e2,
     run_ops (start [1; 2; 3]) (firstn 4 ops) = Ok (ck, e1) /\ run_ops ck (skipn 4 ops) = Ok (cf, e2) /\
-    run_bounded 6 ck (skipn 4 ops) /\ ~ known_class Incremental ck /\ items cf = [1; 2] /\ cdone cf = true /\
+    run_bounded 6 ck (skipn 4 ops) /\ items cf = [1; 2] /\ cdone cf = true /\
     mirror_task (sub_mirror Incremental ck 6) (sub_stream Incremental ck e2) =
       HOk {| mv := [1; 2]; mcomplete := true; mdone := true; mmax := 6 |}.
 Proof.
   eexists _, _, _, _. split; [vm_compute; reflexivity|]. split; [vm_compute; reflexivity|].
-  repeat split; try (vm_compute; congruence).
-  intros (_ & Hd & _). vm_compute in Hd. discriminate.
+  repeat split; vm_compute; congruence.
 Qed.
 
 Print Assumptions C13_VecDeque_mirror_equals_collection.
 Print Assumptions C13_VecDeque_step.
 Print Assumptions C13_VecDeque_done_iff_called.
-Print Assumptions C13_VecDeque_known_class_refuted.
 Print Assumptions C13_VecDeque_api_covered.
 Print Assumptions C13_VecDeque_ops_all_listed.
 Print Assumptions C13_VecDeque_events_covered.
 Print Assumptions C13_VecDeque_events_all_listed.
+Print Assumptions C13_VecDeque_incremental_after_done.
